@@ -7,7 +7,7 @@ EXTENDS Strings, TraceIO
 
 VARIABLE l
 
-Explained(ev) ==
+ExplainedOut(ev) ==
   CASE ev.e = "split" ->
          IF ev.a2 = <<>> THEN ev.outcome = "raise"
          ELSE ev.outcome = "ok" /\ ev.out = SplitD(ev.a1, ev.a2)
@@ -21,6 +21,10 @@ Explained(ev) ==
     [] ev.e = "starts" ->
          ev.outcome = "ok" /\ ev.out = (IF StartsWith(ev.a1, ev.a2) THEN <<1>> ELSE <<0>>)
     [] OTHER -> FALSE
+
+(* `alts`: results of the same call made with temporaries / const objects / other iterator kinds as arguments *)
+AltsAgree(ev) == \A k \in 1..Len(ev.alts) : ev.alts[k] = ev.out
+Explained(ev) == AltsAgree(ev) /\ ExplainedOut(ev)
 
 FinalAcc(ev) ==
   CASE ev.e = "split" /\ ev.a2 # <<>>   -> SplitD(ev.a1, ev.a2)
